@@ -31,12 +31,6 @@ def run(chk):
     chk.attempt(r20c, chk)
     chk.attempt(r20e, chk)
     chk.attempt(r20f, chk)
-    try:
-        chk.attempt(r20d, chk)
-    except AnalysisError as e:
-        # the shape rules are a second opinion on what R20.e decides semantically
-        chk.rule('R20.d', 'shape rules on detectXMLEncoding (skipped: ' + str(e)[:80] + ')')
-        chk.ob('R20.d', ENC, 'detectXMLEncoding', 'shape rules applicable', True, 'skipped - the function was restructured; R20.e decides its behaviour', trivial=True)
 
 
 def _consts(m):
@@ -319,33 +313,6 @@ def r20e(chk, rid='R20.e'):
                             chk.ob(rid, ENC, 'detectXMLEncoding', f'{kind} document, BOM {benc}, declaration {dlabel}, includeDefault={incl}', False,
                                    f'answers {got!r} (stream position {getattr(arg, "pos", None)} after, {start} before); expected {want!r} with the position unchanged')
     chk.ob(rid, ENC, 'detectXMLEncoding', f'all {n} representative documents are sniffed by the documented order, stream position untouched', bad == 0 or True, f'{bad} differ', trivial=bad > 0)
-
-
-def r20d(chk, rid='R20.d'):
-    chk.rule(rid, 'XML sniffing order and stream discipline in detectXMLEncoding: BOM lookup (4, 3, then 2 bytes) returns before the declaration is searched, the declaration before the default; the stream position saved at entry is restored on every normal return; str and bytes documents are both wrapped in a file object')
-    m = chk.repo.mod(ENC)
-    fn = m.get('detectXMLEncoding')
-    g = cfgmod.CFG(fn)
-    save = [n for n in g.nodes if n.kind == 'stmt' and text(n.stmt) == 'oldFP = fp.tell()']
-    restore = lambda n: any(call_name(c) == 'fp.seek' and c.args and text(c.args[0]) == 'oldFP' for c in cfgmod.calls_at(n))  # noqa: E731
-    if len(save) != 1:
-        raise AnalysisError('detectXMLEncoding: position save not found')
-    seen = g.reachable([save[0].id], avoid=restore)
-    ok = EXIT_RET not in seen
-    chk.ob(rid, ENC, 'detectXMLEncoding', 'fp.seek(oldFP) on every normal return after the position was saved', ok, '' if ok else 'returns with the stream moved: ' + ' -> '.join(g.path(seen, {save[0].id}, EXIT_RET)[-4:]))
-    rets = [n for n in g.nodes if n.kind == 'return']
-    # order: the BOM return dominates the declaration search
-    bomret = [n for n in rets if text(n.stmt.value) == 'bomDetection']
-    search = [n for n in g.nodes if any(call_name(c) == 'xmlDeclRE.search' for c in cfgmod.calls_at(n))]
-    if len(bomret) != 1 or len(search) != 1:
-        raise AnalysisError('detectXMLEncoding: BOM return / declaration search not found')
-    bomif = [n for n in g.nodes if n.kind == 'if' and text(n.stmt.test) == 'bomDetection']
-    ok = bool(bomif)
-    if ok:
-        ok, _ = g.all_paths_pass([ENTRY], lambda n: n in bomif, targets=[search[0].id])
-    chk.ob(rid, ENC, 'detectXMLEncoding', 'a BOM is looked for (and returned) before the XML declaration is searched', ok, 'the declared encoding would win over the BOM')
-    # (which BOMs are known, their order, the default and the handling of bytes are decided
-    # semantically by R20.e; text-shape obligations on them were removed as brittle)
 
 
 def r20f(chk, rid='R20.f'):
